@@ -12,7 +12,7 @@ EXPLANATION = (
     "and is <= 2N wherever it is used; H2 the byte count is (d >> 1) + (d & 1), the unreachable_unchecked guarding `max_bytes > N` is infeasible, and 2*bytes >= digits (every printed position was written); "
     "H3 small path (entered only under N <= 1024): buffer extent 2N, each encoder call has dst.len() >= 2*src.len(), the printed prefix ..max_digits is within the buffer; H4 large path: buffer 2048 bytes, chunk length <= 1024 so 2*chunk <= buffer, "
     "the printed prefix min(2*chunk, digits_left) is within the buffer and never exceeds digits_left (no underflow of the budget); H5 the capacity precondition of hex_encode_fallback's unreachable_unchecked (and of unwrap_unchecked on faster_hex's "
-    "result under F2) holds at every call site, and hex_encode passes (src, dst) through unchanged; H6 LowerHex instantiates generic_hex with UPPER = false and UpperHex with true, and the constant digit tables are keyed by UPPER.")
+    "result under F2) holds at every call site, and hex_encode passes (src, dst) through unchanged; H7 every write_str receives a buffer prefix of exactly the digit budget of its path; H6 LowerHex instantiates generic_hex with UPPER = false and UpperHex with true, and the constant digit tables are keyed by UPPER.")
 
 
 def find_calls(a, pred):
@@ -135,6 +135,20 @@ def check_generic_hex(ctx, cfg):
     if dl is not None:
         okb = prove((">=", Poly.atom(dl) - n), pf)
     ctx.ob("C14.H4", key + "#budget", okb, "n = %r never exceeds the remaining digit budget (no underflow of digits_left): %s" % (n, okb), at=c.at, cfg=cfg)
+    # H7: every string handed to the formatter is a prefix of a digit buffer of exactly the digit budget of its path:
+    # max_digits on the stack-buffer path, min(2 * chunk, digits_left) on the chunked path (a longer or shorter write prints the wrong number of digits)
+    ws = find_calls(a, lambda c: c.fn.endswith("Formatter::<'a>::write_str"))
+    for i, w in enumerate(ws):
+        src = [c for c in a.calls if c.fn == "core::str::from_utf8_unchecked" and c.ret == w.args[1]]
+        if len(src) != 1 or src[0].args[0][0] != "P" or src[0].args[0][3] is None:
+            ctx.ob("C14.H7", "%s#write_str#%d" % (key, i), UNKNOWN, "the written string is not a tracked prefix of a digit buffer", at=w.at, cfg=cfg)
+            continue
+        p_ = src[0].args[0]
+        pfw = a.poly_facts(w.facts)
+        small_path = prove((">=", Poly.const(1024) - N), pfw)
+        want = md if small_path else n
+        ok7 = (not p_[2].t) and prove(("==", p_[3] - want), pfw)
+        ctx.ob("C14.H7", "%s#write_str#%d" % (key, i), ok7, "write_str(buf[..%r]) on the %s path; required length: the digit budget %r: %s" % (p_[3], "stack-buffer" if small_path else "chunked", want, ok7), at=w.at, cfg=cfg)
     # H5: encoder calls
     encs = find_calls(a, lambda c: c.key in ("hex_encode", "hex_encode_fallback"))
     for i, c in enumerate(encs):
